@@ -54,3 +54,9 @@ claim("C06", "property-based testing: generated networks and seeded paths, exact
       "delivery counters): exact reaction-combination identity, integrality, conservation laws from the rational left "
       "null space, non-negativity, absorption at zero total propensity, and the safe interface's guard table.",
       _TB, "DESIGN.md section 4 C06")
+
+claim("C04", "property-based testing: generated ODE networks, differential vs matrix exponential / high-accuracy integration (Hypothesis)",
+      "6k (quick) / 60k (thorough) generated linear, nonlinear and time-dependent networks on uniform and non-uniform "
+      "grids through py_simulate_model and DeterministicSimulator: exact initial row and time axis, every row within "
+      "2e-5 (1+max|x|) of the closed-form / DOP853(1e-11) solution of the reference right-hand side (which includes the "
+      "delayed stoichiometry).", _TB + "; scipy's expm and DOP853", "DESIGN.md section 4 C04")
